@@ -13,6 +13,10 @@ func DebugOne(prop, engine string, verifSeed uint64, index int64) string {
 	target := pickTarget(prop, seed)
 	var sb strings.Builder
 	sc, _ := GenHist(seed, prop, target)
+	if os.Getenv("VERIF_DUMP_SCENARIO") == "only" {
+		sj, _ := json.Marshal(sc)
+		return string(sj) + "\n"
+	}
 	r := Run(sc)
 	fmt.Fprintf(&sb, "index=%d seed=%d target=%s trace=%016x calls=%d\n", index, seed, target, r.TraceHash, r.Calls)
 	for ti, outs := range r.Outcomes {
